@@ -101,6 +101,9 @@ fn wild_neighbour(r: &mut Rng, v: &str) -> String {
 /// the same prefix with the boundary number, its neighbours, small numbers,
 /// and longer equal-valued spellings of each.
 fn boundary_cluster(r: &mut Rng) -> Vec<String> {
+    if r.chance(1, 3) {
+        return sibling_boundary_cluster(r);
+    }
     let prefix = match r.below(4) {
         0 => String::new(),
         1 => format!("{}.", r.below(3)),
@@ -124,6 +127,41 @@ fn boundary_cluster(r: &mut Rng) -> Vec<String> {
     out.push(format!("{prefix}{b}.0.0.0.0.0"));
     out.push(format!("{prefix}{b}rc1"));
     out.push(format!("{prefix}{b}nb1"));
+    out
+}
+
+/// Two or three *sibling* prefixes that differ in their last token by one step
+/// of the order (`1.` / `1rc` / `1beta`, `1a` / `1b`), each followed by the
+/// numbers around a representation boundary and by the modifiers: a packed or
+/// biased sort key whose field overflows into its neighbour is wrong exactly
+/// between such siblings.
+fn sibling_boundary_cluster(r: &mut Rng) -> Vec<String> {
+    let head = match r.below(3) {
+        0 => String::new(),
+        1 => format!("{}", r.below(3)),
+        _ => format!("{}.{}", r.below(3), r.below(3)),
+    };
+    let lasts: &[&str] = match r.below(4) {
+        0 => &[".", "rc", "beta", "alpha"],
+        1 => &["a", "b", "c"],
+        2 => &["_", "pl", "pre"],
+        _ => &[".", "rc", "a"],
+    };
+    // field widths a packed key is likely to use
+    let b: i128 = if r.chance(2, 3) { *r.pick(&[1i128 << 8, 1 << 15, 1 << 16, 1 << 16, 1 << 21, 1 << 31, 1 << 32]) } else { gv::boundary_num(r).parse().unwrap_or(65_536) };
+    let mut out = vec![];
+    for l in lasts {
+        for d in -3i128..=3 {
+            let v = (b + d).max(0);
+            if v.to_string().len() <= 18 {
+                out.push(format!("{head}{l}{v}"));
+            }
+        }
+        for m in ["alpha", "beta", "rc", "pl", "0", "1", "99999"] {
+            out.push(format!("{head}{l}{m}"));
+        }
+        out.push(format!("{head}{l}"));
+    }
     out
 }
 
